@@ -24,6 +24,24 @@ class FileProxy:
 
     def write(self, data):
         self._shim.op("write", self._path)
+        if self._shim.short_now:
+            # the file system takes only a part of the data (disk full, quota, file size limit): an unbuffered file
+            # reports the short count and nothing else; a buffered one has the remainder refused when it retries
+            self._shim.short_now = False
+            import io
+
+            n = len(data) // 2
+            self._real.write(data[:n])
+            self._shim.full_paths.add(self._path)
+            if isinstance(self._real, io.RawIOBase):
+                return n
+            try:
+                self._real.flush()
+            except Exception:
+                pass
+            raise OSError(errno.ENOSPC, f"injected ENOSPC after a short write to {_os.path.basename(self._path)}")
+        if self._path in self._shim.full_paths:
+            raise OSError(errno.ENOSPC, f"injected ENOSPC writing to {_os.path.basename(self._path)}")
         return self._real.write(data)
 
     def flush(self):
@@ -123,7 +141,7 @@ class OsProxy:
 
 
 class Shim:
-    """mode: 'count' | 'fail' | 'fail-all' | 'crash'; at: index of the op to hit; only write-mode opens are counted."""
+    """mode: 'count' | 'fail' | 'short' (the at-th op, a write, is only partly accepted) | 'fail-all' | 'crash'; at: index of the op to hit; only write-mode opens are counted."""
 
     def __init__(self, mode="count", at=None, err=errno.EIO, logfd=None):
         self.mode = mode
@@ -135,6 +153,8 @@ class Shim:
         self.fds = {}
         self.fired = False
         self.active = True
+        self.short_now = False
+        self.full_paths = set()
 
     def op(self, name, path):
         if not self.active:
@@ -145,6 +165,10 @@ class Shim:
         self.ops.append((name, base))
         if self.logfd is not None:
             _os.write(self.logfd, f"{idx} {name} {base}\n".encode())
+        if self.mode == "short" and self.at is not None and idx == self.at and not self.fired and name == "write":
+            self.fired = True
+            self.short_now = True
+            return
         if self.mode == "fail-all":
             # the disk is full / gone for the whole time the shim is installed: every file operation fails
             self.fired = True
